@@ -783,6 +783,23 @@ def r6(F, R):
 def _keyed_emit(F, R, co, nm):
     D, dp, rows_ = _emit_rows(F, co)
     n_started = n_finished = n_none = n_loop = 0
+    # the pending-Started cell (`initial`): the Option that is emptied right before Started is forwarded
+    init_terms = set()
+    for p, acts in rows_:
+        st0 = [x for x in acts if x[1] == "started"]
+        if st0:
+            for e in p.effects[:st0[0][0]]:
+                if e[0] == "write" and D.is_variant(e[2], "std::option::Option", "None") and any(a == ("discr", _rt(e[1])) and o == "Some" for a, o in p.conds):
+                    init_terms.add(_rt(e[1]))
+    for p, acts in rows_:
+        if any(a[0] == "discr" and a[1] in init_terms and o == "Some" for a, o in p.conds) and not [x for x in acts if x[1] == "started"]:
+            conds = " ∧ ".join(f"{D.fmt(co, a)[:40]}={o}" for a, o in p.conds[:5])
+            R.violation(f"emit/{nm}/started-whenever-pending", co, f"[{conds}] the {nm} emitter's Started is pending but is not forwarded on this path (it waits for something else, e.g. "
+                        f"the first child): a bracket whose children never come loses its Started while its Finished is still forwarded; a sequential stream no longer passes through event by event")
+            break
+    else:
+        if init_terms:
+            R.ok(f"emit/{nm}/started-whenever-pending", co, "whenever Started is pending it is forwarded first")
     for p, acts in rows_:
         kinds = [k for _, k, _ in acts]
         st = [x for x in acts if x[1] == "started"]
